@@ -84,8 +84,40 @@ Proof.
   destruct (proj_meth c w Hco Hcw Hf) as [Hp _]. specialize (Hp x Ex).
   destruct (cwf_side _ _ Hcw) as [Hwl Hwr].
   destruct (prms_wf 2 (cl c) Hwl) as [Hpa Hnpa]. destruct (prms_wf 2 (cr c) Hwr) as [Hpb Hnpb].
-  pose proof (restr_params _ _ _ Hzp Hpa Hpb Hnpa Hnpb) as Hr. rewrite Ex in Hr. cbn [prms] in Hr. rewrite Hr.
-  rewrite <- Hp at 5. cbn [m_params].
-  rewrite <- (f_equal m_desc Hp), <- (f_equal m_names Hp), <- (f_equal m_doc Hp). cbn [m_desc m_names m_doc].
-  destruct x; reflexivity.
+  rewrite Ex in Hpa, Hnpa.
+  pose proof (restr_params _ _ _ Hzp Hpa Hpb Hnpa Hnpb) as Hr. cbn [prms] in Hr. rewrite Hr.
+  pose proof (f_equal m_desc Hp) as E1. pose proof (f_equal m_names Hp) as E2. pose proof (f_equal m_doc Hp) as E3.
+  cbn [m_desc m_names m_doc] in E1, E2, E3. rewrite E1, E2, E3. destruct x; reflexivity.
+Qed.
+
+Lemma restr_classes la lb r :
+  zip_spec ckeqb class_key merge_class la lb r ->
+  Forall Pclass la -> Forall Pclass lb -> NoDup (map class_key la) -> NoDup (map class_key lb) ->
+  filter_map (restr_class 1 la) r = la.
+Proof.
+  intros Hz Ha Hb Hna Hnb. apply (restr_zip ckeqb ckeqb_ok class_key merge_class la lb r _ Hz Hna Hnb).
+  intros k c w Hc Hf.
+  destruct (arises_ok ckeqb ckeqb_ok class_key Pclass la lb k c Ha Hb Hc) as (Hk & Hco & Hcw).
+  destruct (merge_class_ok c w Hco Hcw Hf) as (Hkey & _ & _ & Hzf & Hzm & _).
+  destruct (comb_of_sides _ _ _ Hc) as [El _].
+  unfold restr_class. rewrite Hkey, Hk, <- El.
+  destruct (cwf_side _ _ Hcw) as [Hwl Hwr].
+  destruct (flds_wf 2 (cl c) Hwl) as [Hfa Hnfa]. destruct (flds_wf 2 (cr c) Hwr) as [Hfb Hnfb].
+  destruct (mths_wf 2 (cl c) Hwl) as [Hma Hnma]. destruct (mths_wf 2 (cr c) Hwr) as [Hmb Hnmb].
+  pose proof (restr_fields _ _ _ Hzf Hfa Hfb Hnfa Hnfb) as Hrf.
+  pose proof (restr_meths _ _ _ Hzm Hma Hmb Hnma Hnmb) as Hrm.
+  destruct (proj_class c w Hco Hcw Hf) as [Hp _].
+  destruct (cl c) as [x|] eqn:Ex; [|reflexivity]. f_equal. specialize (Hp x eq_refl).
+  cbn [flds mths] in Hrf, Hrm. rewrite Hrf, Hrm.
+  pose proof (f_equal c_names Hp) as E1. pose proof (f_equal c_doc Hp) as E2.
+  cbn [c_names c_doc] in E1, E2. rewrite E1, E2. destruct x; reflexivity.
+Qed.
+
+Theorem merge_restrict A B M : wf2 A = true -> wf2 B = true -> merge A B = Ok M -> restrict 1 A M = A.
+Proof.
+  intros HA HB HM. destruct (merge_ok A B M HA HB HM) as (Hs & Hns & Hdoc & Hnc & Hz & _).
+  destruct (wf2_shape A HA) as (s & a & EnA & _ & _ & HcA & HdA).
+  destruct (wf2_shape B HB) as (s' & b & EnB & _ & _ & HcB & HdB).
+  unfold restrict. rewrite (restr_classes _ _ _ Hz HcA HcB HdA HdB), Hns, Hdoc, EnA. cbn [nth].
+  rewrite mask_l. destruct A as [ns d cs]. cbn [ms_ns ms_doc ms_classes] in *. subst ns. reflexivity.
 Qed.
